@@ -132,7 +132,7 @@ CHECKS["C15"] = {
         ]},
     ],
     "assumptions": [
-        "mask fields are omitted (0) or within 1..32 / 1..128; limit >= 1 as the configuration's integer type implies",
+        "a mask field that is no prefix length of its family (0 = omitted, negative, beyond 32 / 128) configures nothing and the default /24 and /48 apply, as the option's documentation (default 24 / 48) and the fallback in setDefault say; limit >= 1 as the configuration's integer type implies",
         "time is the parameter of AllowN (virtual); decisions within 1e-6 tokens of the threshold may go either way",
         "TestVfC15Global runs in real time (the router's limiter reads the clock itself): decisions within 1 token + 10 ms of refill of a threshold are left undecided",
     ],
@@ -279,6 +279,7 @@ CHECKS["C03"] = {
     "parts": [
         {"engine": "E", "proxy": ["plain"], "tests": [
             {"run": "TestVfC03", "quick": 40, "thorough": 1200, "shards_quick": 8, "shards_thorough": 16, "timeout_quick": 600, "timeout_thorough": 3400, "shrinktime": "40s"},
+            {"run": "TestVfC03WildcardUDP", "quick": 200, "thorough": 200000, "shards_quick": 2, "shards_thorough": 8, "timeout_thorough": 3400},
             {"run": "TestVfC03Pipelined", "quick": 160, "thorough": 6000, "shards_quick": 8, "shards_thorough": 16, "timeout_thorough": 3400},
         ]},
     ],
